@@ -183,6 +183,18 @@ def hmc_progress(ctx, nc, nd):
     okt = len(tn) == 1 and any(tn[0].args[0] is a and tn[0].args[1] is d for a, d in dims_alts)
     ctx.check('C10.tracker_ctor.hmc', A, 'tracker', okt, expected='MultiChainTracker::new(n_chains, dim) from the dims of self.positions, in this order', found='; '.join('(%s, %s)' % (show(e.args[0]), show(e.args[1])) for e in tn) or 'no call', sp=sp,
               why='a tracker built as (dim, n_chains) rejects every state unless n_chains == dim: run_progress fails where run succeeds')
+    # error exits: run() cannot fail, so run_progress may fail only where the returned diagnostics themselves cannot be computed
+    # (the final tracker.stats(sample)); a failure of the DISPLAY statistics (running R-hat: NaN with one chain) must not abort it
+    errs = set()
+    for t_ in [ev.ret_term] + [e[2] for l_ in ev.vf.loops for e in l_.exits if e[0] == 'return']:
+        if isinstance(t_, T.Tm):
+            for x in T.subterms(t_):
+                if T.is_app(x, 'is:Err') and x[2]:
+                    errs.add(x[2][0])
+    bad_err = [y for y in errs if not T.is_app(y, 'stats::MultiChainTracker::stats')]
+    ctx.check('C10.err_exits.hmc', A, 'error-exits', not bad_err, expected='the only error exit is the final tracker.stats(<returned sample>)',
+              found='; '.join(show(y)[:100] for y in bad_err) or '%d error exit(s), all from the final stats' % len(errs), sp=sp,
+              why='run() cannot fail: progress mode must not fail where run succeeds (e.g. max_rhat is an error for a single chain: NaN has no order)')
     st = ev.events(lambda e: e.key == 'stats::MultiChainTracker::stats')
     ctx.check('C10.stats_from_returned.hmc', A, 'stats', len(st) == 1 and st[0].args[1] is sample and ret[1][1] is st[0].res or (len(st) == 1 and st[0].args[1] is sample and assume_ok(ret[1][1]) is assume_ok(st[0].res)),
               expected='RunStats computed by tracker.stats(<the returned sample>)', found='%d stats call(s)' % len(st), sp=sp, why='diagnostics must equal those computed from the returned draws')
@@ -470,6 +482,16 @@ def stats_from_returned(ctx, nc, nd):
         ok = ret[0] == 'tuple' and len(ret[1]) == 2 and len(st) == 1 and st[0].args[0] is ret[1][0] and ret[1][1] is st[0].res
         ctx.check('C10.stats_from_returned.core', A, 'stats', ok, expected='(sample, RunStats::from(sample.view()))', found=show(ret)[:300], sp=b['sp'],
                   why='diagnostics must equal those computed from the returned draws')
+        errs = set()
+        for t_ in [ev.ret_term] + [e[2] for l_ in ev.vf.loops for e in l_.exits if e[0] == 'return']:
+            if isinstance(t_, T.Tm):
+                for x in T.subterms(t_):
+                    if T.is_app(x, 'is:Err') and x[2]:
+                        errs.add(x[2][0])
+        bad_err = [y for y in errs if not T.is_app(y, 'stack')]
+        ctx.check('C10.err_exits.core', A, 'error-exits', not bad_err, expected='the only error exit is the stacking of the per-chain results (as in run)',
+                  found='; '.join(show(y)[:100] for y in bad_err) or '%d error exit(s), all from stacking the results' % len(errs), sp=b['sp'],
+                  why='progress mode must not fail where run succeeds: a failure of the display statistics must not abort it')
         collect_rule(ctx, 'C10.collect.core', A, ev, ret, b, 'core::run_chain_progress', 'chains_mut(self)', lambda R: T.app('stack', AX(0), R))
         # per-chain results in chain order, workers get (chain_c, tx_c)
         workers = ev.events(lambda e: e.key == 'core::run_chain_progress')
